@@ -119,6 +119,10 @@ pub trait Prop: Sync + Send + Sized + 'static {
     fn render(&self, case: &Self::Case) -> Value {
         serde_json::to_value(case).unwrap_or(Value::Null)
     }
+    /// verdict for a case whose worker process died (`why` = exit status and stderr tail)
+    fn on_worker_death(&self, _case: &Self::Case, why: &str) -> Verdict {
+        Verdict::fail(why.to_string())
+    }
     /// hook called once in the parent before anything runs (e.g. scratch dirs)
     fn prepare(&self, _tier: Tier) {}
 }
@@ -212,7 +216,10 @@ impl<'a, P: Prop> Exec<'a, P> {
     fn run(&mut self, case: &P::Case) -> Verdict {
         if P::ISOLATED {
             let line = serde_json::to_string(case).expect("case serialises");
-            worker::run_in_worker(&mut self.worker, P::ID, &line, P::TIMEOUT_MS)
+            match worker::run_in_worker(&mut self.worker, P::ID, &line, P::TIMEOUT_MS) {
+                Ok(v) => v,
+                Err(why) => self.prop.on_worker_death(case, &why),
+            }
         } else {
             crate::rs::guard(|| self.prop.check(case))
         }
@@ -223,7 +230,7 @@ fn note<P: Prop>(prop: &P, st: &mut Stats, phase: &str, case: &P::Case, v: &Verd
     st.evaluations += 1;
     *st.phases.entry(phase.to_string()).or_default() += 1;
     for c in &v.classes {
-        *st.classes.entry(c.clone()).or_default() += 1;
+        *st.classes.entry(format!("{phase}/{c}")).or_default() += 1;
     }
     if let Outcome::Discard(why) = &v.outcome {
         *st.discards.entry(why.clone()).or_default() += 1;
@@ -531,8 +538,17 @@ pub fn main_check<P: Prop>(tier: Tier) -> i32 {
         wall,
         if code == 0 { "held" } else { "VIOLATED" }
     );
-    if code == 0 && total.evaluations > 0 && ndisc * 20 > total.evaluations {
-        println!("inconclusive: more than 5% of the cases were discarded");
+    let harness_bugs: u64 = total.discards.iter().filter(|(k, _)| k.contains("HARNESS PANIC")).map(|(_, v)| *v).sum();
+    let resource: u64 = total.discards.iter().filter(|(k, _)| k.contains("timeout") || k.contains("out of memory") || k.contains("worker")).map(|(_, v)| *v).sum();
+    if code == 0 && harness_bugs > 0 {
+        for (k, v) in total.discards.iter().filter(|(k, _)| k.contains("HARNESS PANIC")) {
+            println!("{v}x {k}");
+        }
+        println!("inconclusive: the harness itself panicked on {harness_bugs} case(s)");
+        return 2;
+    }
+    if code == 0 && total.evaluations > 0 && resource * 20 > total.evaluations {
+        println!("inconclusive: more than 5% of the cases hit the watchdog or a resource limit");
         return 2;
     }
     code
